@@ -126,6 +126,12 @@ package shimagent
 //@ # a listed key is fine at clock t when it is not a (parsable) certificate or its validity window contains t
 //@ ghost func okBlob(b int, t int) bool = !(certBlob(b) && parseOKid(b)) || certutil.inWindow(certVA(b), certVB(b), t)
 //@ ghost func kb(k *agent.Key) int = blobid(asKey(k))
+//@ # the hash under which the orphan pass files a listed key: the hash of the certified public key for a (parsable) certificate, of the key itself otherwise
+//@ ghost func pkh(k *agent.Key) bytes = (certBlob(kb(k)) && parseOKid(kb(k))) ? sha(certPub(kb(k))) : sha(kb(k))
+//@ # j-th key of the n-th listing of the underlying agent, as it was returned
+//@ ghost func listed(n int, j int) *agent.Key = at(retc(Agent.List, n, 0), off(ret(Agent.List, n, 0)), j)
+//@ # the in-memory certificate stored under h certifies a public key that the n-th listing contains
+//@ ghost func backed(s *Server, h bytes, n int) bool = exists(j, 0 <= j && j < len(ret(Agent.List, n, 0)), sha(blobid(s.certs[h].Certificate.Key)) == pkh(listed(n, j)))
 //@ ghost func distinctKeys(ks []*agent.Key) bool = forall(p, 0 <= p && p < len(ks), forall(q, p < q && q < len(ks), kb(ks[p]) != kb(ks[q])))
 //@ func (*Server).filter(s)
 //@   flag logged
@@ -142,6 +148,7 @@ package shimagent
 //@   ensures [the-list-handed-back-is-what-is-left-of-the-listing] err == nil ==> (ret(Agent.List, l0, 1) == nil &&
 //@     (inAgentKeys == nil || (arr(inAgentKeys) == arr(ret(Agent.List, l0, 0)) && off(inAgentKeys) == off(ret(Agent.List, l0, 0)))) && len(inAgentKeys) <= len(ret(Agent.List, l0, 0)))
 //@   ensures [tables-only-shrink] forall(h#bytes, h in dom(s.certs), old(h in dom(s.certs)) && s.certs[h] == old(s.certs[h]))
+//@   ensures [no-orphan-left-when-the-agent-lists-keys] (err == nil && len(ret(Agent.List, l0, 0)) != 0) ==> forall(h#bytes, h in dom(s.certs), backed(s, h, l0))
 //@   ensures [one-clock-sample-per-purge] err == nil ==> calls(time.Now) == old(calls(time.Now)) + 1
 //@   ensures [no-listed-certificate-outside-its-validity-window] err == nil ==> forall(j, 0 <= j && j < len(inAgentKeys),
 //@     okBlob(kb(inAgentKeys[j]), tUnix(ret(time.Now, old(calls(time.Now)), 0))))
@@ -163,6 +170,9 @@ package shimagent
 //@ func filterOrphanCerts(s, certsInMemory, keysInAgent)
 //@   flag inline
 //@   loop 1:
+//@     invariant forall(j, 0 <= j && j < len(keysInAgent), keysInAgent[j] == listed(outer(l0), j), keysInAgent[j])
+//@     invariant len(keysInAgent) == len(ret(Agent.List, outer(l0), 0)) && len(keysInAgent) != 0
+//@     invariant [filed-hashes-come-from-the-listing] forall(x#bytes, x in dom(publicKeys), exists(j, 0 <= j && j < len(ret(Agent.List, outer(l0), 0)), x == pkh(listed(outer(l0), j))))
 //@     invariant [tables-only-shrink] outer(forall(h#bytes, h in dom(s.certs), old(h in dom(s.certs)) && s.certs[h] == old(s.certs[h])))
 //@     invariant publicKeys != nil && fresh(publicKeys) && srvOK(outer(s)) && certsInMemory == outer(s).certs
 //@     invariant certsNonNil(outer(s))
@@ -171,6 +181,9 @@ package shimagent
 //@     invariant distinctKeys(outer(inAgentKeys))
 //@     invariant arr(outer(inAgentKeys)) == arr(keysInAgent) && off(outer(inAgentKeys)) == off(keysInAgent) && len(outer(inAgentKeys)) <= len(keysInAgent)
 //@   loop 2:
+//@     invariant len(ret(Agent.List, outer(l0), 0)) != 0
+//@     invariant [filed-hashes-come-from-the-listing] forall(x#bytes, x in dom(publicKeys), exists(j, 0 <= j && j < len(ret(Agent.List, outer(l0), 0)), x == pkh(listed(outer(l0), j))))
+//@     invariant [no-orphan-left-when-the-agent-lists-keys] errs == nil ==> forall(h#bytes, visited(h) && (h in dom(certsInMemory)), backed(outer(s), h, outer(l0)))
 //@     invariant publicKeys != nil && srvOK(outer(s)) && certsInMemory == outer(s).certs
 //@     invariant certsNonNil(outer(s))
 //@     invariant keysWF(keysInAgent)
@@ -182,6 +195,7 @@ package shimagent
 //@ func filterExpiredCerts(s, certsInMemory, keysInAgent)
 //@   flag inline
 //@   loop 1:
+//@     invariant [no-orphan-left-when-the-agent-lists-keys] len(ret(Agent.List, outer(l0), 0)) != 0 ==> forall(h#bytes, h in dom(certsInMemory), backed(outer(s), h, outer(l0)))
 //@     invariant srvOK(outer(s)) && certsInMemory == outer(s).certs
 //@     invariant calls(time.Now) == outer(old(calls(time.Now))) + 1 && now == ret(time.Now, outer(old(calls(time.Now))), 0) && !tIsZero(now)
 //@     invariant certsNonNil(outer(s))
@@ -194,6 +208,7 @@ package shimagent
 //@     invariant [no-listed-certificate-outside-its-validity-window] errs == nil ==> forall(p, 0 <= p && p < len(outer(inAgentKeys)),
 //@       okBlob(kb(keysInAgent[p]), tUnix(now)) || exists(q, rangeindex < q && q < len(keysInAgent), kb(keysInAgent[q]) == kb(keysInAgent[p])))
 //@   loop 2:
+//@     invariant [no-orphan-left-when-the-agent-lists-keys] len(ret(Agent.List, outer(l0), 0)) != 0 ==> forall(h#bytes, h in dom(certsInMemory), backed(outer(s), h, outer(l0)))
 //@     invariant srvOK(outer(s)) && certsInMemory == outer(s).certs
 //@     invariant calls(time.Now) == outer(old(calls(time.Now))) + 1 && now == ret(time.Now, outer(old(calls(time.Now))), 0) && !tIsZero(now)
 //@     invariant [no-in-memory-certificate-outside-its-validity-window] errs == nil ==> forall(h#bytes, visited(h) && (h in dom(certsInMemory)), validAt(certsInMemory[h].Certificate, tUnix(now)))
